@@ -3,7 +3,8 @@
    constructor table and the colour table that translate/gen_style.py regenerates from /repo on every run
    (Gen/GenStyle.v).  Quantification is over EVERY style class / object class / leaf of that schema, every
    notation, every combination of sources; values range over the per-validator samples of Model/StyleSpec.v
-   (sample_vals / two / sv), which is why the schema-wide theorems carry the suffix _partial. *)
+   (sample_vals / two / sv), which is why those schema-wide theorems carry the suffix _partial.
+   (reset is proved for ARBITRARY histories.) *)
 From Coq Require Import ZArith List Bool String.
 From MV Require Import Lib.STree Model.StyleModel Gen.GenStyle Model.StyleExec Model.StyleSpec.
 From MV Require Import Proofs.StyleLW Proofs.StyleReset Proofs.StylePrec Proofs.StyleGen.
@@ -43,98 +44,125 @@ Print Assumptions precedence_merge_keeps_own_value.
 
 (* ---- schema-wide, by computation over GenStyle ----
    Each *_all is a closed boolean term of Model/StyleSpec.v: nested `forallb` over EVERY style class (or public
-   object class), EVERY leaf of its generated schema, the sample values of the leaf's validator kind, EVERY
-   notation (attribute assignment, underscore keyword and nested dictionary passed to update() at every depth)
-   and EVERY combination of sources; the only exclusions are written in the term (`shadowed`: the leaf an alias
-   property writes to; for reset: leaves the DEFAULTS literal does not mention). *)
+   object class), EVERY leaf of its generated schema (alias-written leaves included), the sample values of the
+   leaf's validator kind, EVERY notation (attribute assignment, underscore keyword and nested dictionary passed
+   to update() at every depth) and EVERY combination of sources. *)
 
-(* lw_all: for every style class, every non-shadowed leaf, values v1 v2, notations n1 n2:
+(* lw_all: for every style class, every leaf, values v1 v2, notations n1 n2:
    set v1 by n1, then v2 by n2  ==  set v2 alone by attribute assignment (whole as_dict() equal, leaf = v2) *)
 Theorem last_assignment_wins_and_notations_equivalent_partial : lw_all = true.
 Proof. exact lw_all_ok. Qed.
 Print Assumptions last_assignment_wins_and_notations_equivalent_partial.
-
-(* on the alias-shadowed leaf the clause is false in the faithful model *)
-Theorem last_assignment_wins_refuted :
-  In ("MagnetStyle", schema_MagnetStyle) style_classes /\
-  In (p_asize, KNumGe0, false) (sleaves schema_MagnetStyle) /\
-  In (VInt 2) (two KNumGe0) /\ In (VFlt 1 2) (two KNumGe0) /\
-  In NAttr (notations p_asize) /\ In (NUnder 0) (notations p_asize) /\
-  lw_holds schema_MagnetStyle p_asize (VInt 2) (VFlt 1 2) NAttr (NUnder 0) = false /\
-  leaf_is schema_MagnetStyle
-       (fst (set_leaf schema_MagnetStyle
-               (fst (set_leaf schema_MagnetStyle (fresh_state schema_MagnetStyle) p_asize (Some (VInt 2)) NAttr))
-               p_asize (Some (VFlt 1 2)) (NUnder 0)))
-       p_asize (Some (VInt 2)) = true.
-Proof. exact lw_alias_witness. Qed.
-Print Assumptions last_assignment_wins_refuted.
 
 (* reject_all: every leaf, every notation: an unknown name gives the name error, every invalid sample value an error *)
 Theorem invalid_names_and_values_rejected_partial : reject_all = true.
 Proof. exact reject_all_ok. Qed.
 Print Assumptions invalid_names_and_values_rejected_partial.
 
-(* prec_all: every public object class, every clearable non-alias non-shadowed leaf that show() accepts, all 16
-   combinations of present/absent sources, two notations: resolved = first non-None of
-   (show keyword, object's own value, family default, base default) *)
+(* prec_all: every public object class, every clearable non-alias leaf that show() accepts: all 16 combinations of
+   present/absent (show keyword, object, own family default, base default) x two notations, and - where two
+   families of the class have the leaf (triangle / triangularmesh next to magnet) - the 16 combinations with the
+   more generic family's default set as well: resolved value = first non-None of
+   (show keyword, object's own value, own-family default, generic-family default, base default);
+   "own family" is the most specific family class (GenStyle.family_spec), not the order get_families lists them *)
 Theorem precedence_partial : prec_all = true.
 Proof. exact prec_all_ok. Qed.
 Print Assumptions precedence_partial.
 
-Theorem precedence_refuted :
-  prec_holds "Cuboid" ["magnetization"; "arrow"; "size"] (VInt 2) (VFlt 1 2) (VInt 0) (VInt 2)
-             (mkSrc true true false false) false NAttr = false.
-Proof. exact prec_alias_witness. Qed.
-Print Assumptions precedence_refuted.
+(* first clause fails for the leaf `label` while the DEFAULTS literal does not list it: show() rejects style_label
+   although every style has that leaf (with `label` in the literal the hypothesis is false and prec_all covers it) *)
+Theorem precedence_show_label_refuted :
+  smem "label" valid_keys = false ->
+  snd (get_style colors (class_schema "Cuboid") (class_families "Cuboid") dstyle_schema
+                 (def_style_state pristine) valid_keys (fresh_state (class_schema "Cuboid"))
+                 (show_style_kwargs [("style_label", Leaf (Some (VStr "lbl")))])) = Some EValue
+  /\ has_leaf (class_schema "Cuboid") ["label"] = true.
+Proof. exact show_label_witness. Qed.
+Print Assumptions precedence_show_label_refuted.
 
 (* every leaf of the DEFAULTS literal is what freshly built settings hold (after its validator) *)
 Theorem fresh_settings_hold_the_literal_defaults : literal_all = true.
 Proof. exact literal_all_ok. Qed.
 Print Assumptions fresh_settings_hold_the_literal_defaults.
 
-(* reset_all: every settings leaf that the DEFAULTS literal mentions and no alias shadows: change it (any
-   notation), reset() -> the whole settings tree is the pristine one *)
-Theorem reset_restores_partial : reset_all = true.
+(* reset() after ANY history: whatever operations (object / settings updates and assignments, style setter,
+   resets, resolutions; valid or rejected) were run from the import-time settings, reset() gives back exactly the
+   import-time settings, without error *)
+Theorem reset_restores_after_any_history :
+  forall (cls : string) (ops : list op) (obj0 : tree),
+    let w := run_world cls (mkW pristine obj0) ops in
+    w_def (fst (step cls w OReset)) = pristine /\ o_err (snd (step cls w OReset)) = None.
+Proof. exact reset_after_any_history. Qed.
+Print Assumptions reset_restores_after_any_history.
+
+(* ... because reset() does not look at the current `display` object at all *)
+Theorem reset_ignores_current_settings :
+  forall t0 : tree, reset colors reset_mode defaults_schema (Node [("display", t0)]) DEFAULTS = (pristine, None).
+Proof. exact reset_any_state. Qed.
+Print Assumptions reset_ignores_current_settings.
+
+(* reset_all (redundant with the above, kept as an executable cross-check through as_dict): EVERY settings leaf,
+   in the DEFAULTS literal or not, alias-written or not, changed by any notation, is restored *)
+Theorem reset_restores_every_leaf : reset_all = true.
 Proof. exact reset_all_ok. Qed.
-Print Assumptions reset_restores_partial.
+Print Assumptions reset_restores_every_leaf.
 
-(* reset() restores NO leaf that the DEFAULTS literal does not mention (every such leaf, every sample value
-   different from the pristine one) ... *)
-Theorem reset_outside_literal_refuted : reset_none_outside = true.
-Proof. exact reset_none_outside_ok. Qed.
-Print Assumptions reset_outside_literal_refuted.
+(* ---- independence at the dictionary level: who may write into the caller's dictionaries ---- *)
+(* the constructor leaves the caller's style dict as it was (form of _process_style_kwargs, from GenStyle) *)
+Theorem constructor_leaves_caller_dict :
+  forall style kwargs : dict, ctor_caller_dict_after ctor_copies_style style kwargs = style.
+Proof. exact ctor_caller_dict_ok. Qed.
+Print Assumptions constructor_leaves_caller_dict.
 
-Theorem reset_outside_literal_witness_refuted :
-  In (p_label, KToStr, false) (sleaves defaults_schema) /\ in_literal p_label = false /\
-  reset_holds p_label (VStr "lbl") NAttr = false.
-Proof. exact reset_outside_witness. Qed.
-Print Assumptions reset_outside_literal_witness_refuted.
+(* magic_to_dict (first level, form from GenStyle) leaves its argument as it was, for every argument *)
+Theorem magic_to_dict_leaves_argument :
+  forall arg : dict, magic_caller_arg_after magic_merge_fresh arg = arg.
+Proof. exact magic_arg_unchanged. Qed.
+Print Assumptions magic_to_dict_leaves_argument.
 
-(* ... and not the alias-shadowed arrow size either *)
-Theorem reset_alias_refuted :
-  In (p_msize, KNumGe0, false) (sleaves defaults_schema) /\ in_literal p_msize = true /\
-  In (VInt 2) (two KNumGe0) /\ reset_holds p_msize (VInt 2) NAttr = false.
-Proof. exact reset_alias_witness. Qed.
-Print Assumptions reset_alias_refuted.
+(* the display recursion hands the show() style arguments on to collection children *)
+Theorem show_kwargs_reach_collection_children : recursion_forwards_style_kwargs = true.
+Proof. exact recursion_ok. Qed.
+Print Assumptions show_kwargs_reach_collection_children.
 
 (* every public constructor hands `style` to BaseGeo.__init__'s style parameter *)
 Theorem constructors_forward_style : ctor_forwards_style = true.
 Proof. exact ctor_ok. Qed.
 Print Assumptions constructors_forward_style.
 
-Theorem defaults_are_valid : snd (defaults_new colors defaults_schema DEFAULTS) = None.
+Theorem defaults_are_valid : snd (defaults_new colors reset_mode defaults_schema DEFAULTS) = None.
 Proof. exact defaults_build_ok. Qed.
 Print Assumptions defaults_are_valid.
 
+(* ---- records of the variants before the fixes (clearly not about the current code) ---- *)
+Theorem record_alias_listed_by_as_dict_breaks_last_wins :      (* before 4641759 *)
+  lw_holds (unhide schema_MagnetStyle) p_asize (VInt 2) (VFlt 1 2) NAttr (NUnder 0) = false /\
+  lw_holds schema_MagnetStyle p_asize (VInt 2) (VFlt 1 2) NAttr (NUnder 0) = true.
+Proof. exact lw_alias_variant_witness. Qed.
+Print Assumptions record_alias_listed_by_as_dict_breaks_last_wins.
+
+Theorem record_merging_reset_keeps_leaves_outside_literal :    (* before f095e9f *)
+  In (p_label, KColor, false) (sleaves defaults_schema) /\ in_literal p_label = false /\
+  reset_holds_m RMerge p_label (VStr "red") NAttr = false /\
+  reset_holds_m RRebuild p_label (VStr "red") NAttr = true.
+Proof. exact reset_merge_variant_witness. Qed.
+Print Assumptions record_merging_reset_keeps_leaves_outside_literal.
+
+Theorem record_inplace_magic_to_dict_writes_into_argument :    (* before c3df3ef *)
+  magic_caller_arg_after false [("path", Node []); ("path_show", Leaf (Some (VBool true)))]
+  = [("path", Node [("show", Leaf (Some (VBool true)))]); ("path_show", Leaf (Some (VBool true)))].
+Proof. exact magic_arg_inplace_witness. Qed.
+Print Assumptions record_inplace_magic_to_dict_writes_into_argument.
+
 (* non-vacuity: the quantifiers inside the *_all terms range over non-empty sets *)
 Example c20_nonvacuous :
-  (exists cs p k al, In cs style_classes /\ In (p, k, al) (sleaves (snd cs)) /\ shadowed (snd cs) p = false /\
+  (exists cs p k al, In cs style_classes /\ In (p, k, al) (sleaves (snd cs)) /\ shadowed (snd cs) p = true /\
                      two k <> [] /\ notations p <> [] /\ bad_vals k <> []) /\
   (exists p k al, In (p, k, al) (sleaves defaults_schema) /\ in_literal p = true /\
-                  shadowed defaults_schema p = false /\ two k <> [] /\ notations_coarse p <> []) /\
+                  two k <> [] /\ notations_coarse p <> []) /\
   (exists p k al, In (p, k, al) (sleaves defaults_schema) /\ in_literal p = false /\ two k <> []) /\
   (exists cls p k, In cls public_classes /\ In (p, k, false) (sleaves (class_schema cls)) /\
-                   prec_leaf k p = true /\ shadowed (class_schema cls) p = false) /\
-  all_sources <> [] /\ prec_variants <> [] /\ ctor_style <> [].
+                   prec_leaf k p = true /\ (2 <= List.length (spec_families cls p))%nat) /\
+  all_sources <> [] /\ gen_sources <> [] /\ prec_variants <> [] /\ ctor_style <> [].
 Proof. exact c20_nonvacuous_proof. Qed.
 Print Assumptions c20_nonvacuous.
